@@ -70,6 +70,11 @@ func genPlan(t *rapid.T) plan {
 				// client applies the new metadata: the acknowledgement arrives on the old connection
 				f = fault{When: "before-produce", Key: 0, Kind: "move-inflight"}
 			}
+			if f.Kind == "code" && f.Key != 0 && rapid.IntRange(0, 3).Draw(t, "sticky") == 0 {
+				// a coordinator that keeps answering with a retriable code for longer than the client retries
+				f.Kind, f.Key = "code-sticky", 26
+				f.Code = rapid.SampledFrom(retriable).Draw(t, "stickycode")
+			}
 			if f.Kind == "code" {
 				if rapid.Bool().Draw(t, "fatal") {
 					f.Code = rapid.SampledFrom(fatal).Draw(t, "code")
@@ -100,7 +105,7 @@ type outcome struct {
 func TestEndResultsTruthful(t *testing.T) {
 	rapid.Check(t, func(rt *rapid.T) {
 		p := genPlan(rt)
-		var lostAfterHandling, restarts, movedInflight int
+		var lostAfterHandling, restarts, movedInflight, stickyCodes int
 		bubble.Run(t, rt, func(e *bubble.Env) {
 			var extra []kfake.Opt
 			if p.Old {
@@ -239,6 +244,19 @@ func TestEndResultsTruthful(t *testing.T) {
 					e.Net.AddRuleNext(f.Key, bubble.KillBefore, 0)
 				case "drop-response":
 					e.Net.AddRuleNext(f.Key, bubble.DropResponse, 0)
+				case "code-sticky":
+					code, left := f.Code, 6 // the client is configured with 3 request retries
+					stickyCodes++
+					e.Cluster.ControlKey(26, func(kreq kmsg.Request) (kmsg.Response, error, bool) {
+						left--
+						if left > 0 {
+							e.Cluster.KeepControl()
+						}
+						resp := kreq.ResponseKind().(*kmsg.EndTxnResponse)
+						resp.ErrorCode = code
+						resp.ProducerID, resp.ProducerEpoch = -1, -1
+						return resp, nil, true
+					})
 				case "timeout":
 					time.Sleep(p.TxnTO + 2*time.Second)
 				case "code":
@@ -399,6 +417,9 @@ func TestEndResultsTruthful(t *testing.T) {
 		}
 		if movedInflight > 0 {
 			ev.Class("leader-moved-while-produce-response-in-flight")
+		}
+		if stickyCodes > 0 {
+			ev.Class("EndTxn-answered-with-a-retriable-code-beyond-the-client's-retries")
 		}
 		if restarts > 0 {
 			ev.Class("client-restarted-with-same-transactional-id")
